@@ -129,6 +129,12 @@ func registerRecover(r *mc.Registry) {
 		{`Success("")`, func(*rc) fp.Try[string] { return fp.Success("") }, ""},
 		{"Failure(e1)", func(*rc) fp.Try[string] { return fp.Failure[string](E[1]) }, "e1"},
 		{"Failure(e2)", func(*rc) fp.Try[string] { return fp.Failure[string](E[2]) }, "e2"},
+		// the library's own errors: a handler must receive them like any other error
+		{"Failure(ErrOptionEmpty)", func(*rc) fp.Try[string] { return fp.Failure[string](fp.ErrOptionEmpty) }, "ErrOptionEmpty"},
+		{"FromOption(None)", func(*rc) fp.Try[string] { return try.FromOption(fp.None[string]()) }, "ErrOptionEmpty"},
+		{"Failure(ErrTryNotFailed)", func(*rc) fp.Try[string] { return fp.Failure[string](fp.ErrTryNotFailed) }, "ErrTryNotFailed"},
+		{"Failure(ErrFutureNotFailed)", func(*rc) fp.Try[string] { return fp.Failure[string](fp.ErrFutureNotFailed) }, "ErrFutureNotFailed"},
+		{"Failure(wrapped ErrOptionEmpty)", func(*rc) fp.Try[string] { return fp.Failure[string](drv.WrappedOptionEmpty) }, "wrapped(ErrOptionEmpty)"},
 	}
 	isE1 := func(c *rc, l int) func(error) bool {
 		return func(err error) bool {
@@ -255,6 +261,8 @@ func registerRecover(r *mc.Registry) {
 		{"succeeds", mkST(nil), ""},
 		{"fails(e1)", mkST(E[1]), "e1"},
 		{"fails(e2)", mkST(E[2]), "e2"},
+		{"fails(ErrOptionEmpty)", mkST(fp.ErrOptionEmpty), "ErrOptionEmpty"},
+		{"fails(ErrTryNotFailed)", mkST(fp.ErrTryNotFailed), "ErrTryNotFailed"},
 	}
 	runs := func(f func(s int) string) string { // rendering of a state function on 0,1,2
 		var b []string
@@ -364,6 +372,7 @@ var someStruct = struct{}{}
 var panicVals = []panicVal{
 	{`"s"`, func() { panic("s") }, func(g any) bool { return g == "s" }},
 	{"error e1", func() { panic(drv.E[1]) }, func(g any) bool { e, ok := g.(error); return ok && e == drv.E[1] }},
+	{"the library sentinel fp.ErrOptionEmpty", func() { panic(fp.ErrOptionEmpty) }, func(g any) bool { e, ok := g.(error); return ok && e == fp.ErrOptionEmpty }},
 	{"7", func() { panic(7) }, func(g any) bool { return g == 7 }},
 	{"nil", func() { panic(nil) }, func(g any) bool {
 		if g == nil {
@@ -397,7 +406,7 @@ func exposed(err error) (any, bool) {
 type captureCase struct {
 	name string
 	// run calls the library function with a supplied function that does `body` and then returns
-	// normally per `ret` (0: zero value/nil error, 1: a value, 2: (value, error e2)); it returns
+	// normally per `ret` (0: zero value/nil error, 1: a value, 2..4: (value, error)); it returns
 	// the resulting Try rendered plus its error.
 	run func(x *mc.X, calls *int, body func(), ret int) (res string, err error, completed bool)
 	// want gives the rendering demanded for a normal return
@@ -426,7 +435,16 @@ func registerCapture(r *mc.Registry) {
 		}
 		return drv.Show(t), err, true
 	}
-	vals := []string{"", "v", "v"}
+	// return shapes: zero value, a value, (value, e2), (value, the library's own fp.ErrOptionEmpty),
+	// (value, fp.ErrFutureNotFailed); functions without an error result ignore retErr
+	vals := []string{"", "v", "v", "v", "v"}
+	retErr := []error{nil, nil, E[2], fp.ErrOptionEmpty, fp.ErrFutureNotFailed}
+	wantErr := func(ret int) string {
+		if retErr[ret] != nil {
+			return "F(" + drv.ErrName(retErr[ret]) + ")"
+		}
+		return ""
+	}
 	cases := []captureCase{
 		{"try.Of", func(x *mc.X, calls *int, body func(), ret int) (string, error, bool) {
 			return strOf(try.Of(func() string { *calls++; x.Tick(); body(); return vals[ret] }))
@@ -436,14 +454,11 @@ func registerCapture(r *mc.Registry) {
 				*calls++
 				x.Tick()
 				body()
-				if ret == 2 {
-					return vals[ret], E[2]
-				}
-				return vals[ret], nil
+				return vals[ret], retErr[ret]
 			}))
 		}, func(ret int) string {
-			if ret == 2 {
-				return "F(e2)"
+			if w := wantErr(ret); w != "" {
+				return w
 			}
 			return "S(" + vals[ret] + ")"
 		}},
@@ -452,14 +467,11 @@ func registerCapture(r *mc.Registry) {
 				*calls++
 				x.Tick()
 				body()
-				if ret == 2 {
-					return E[2]
-				}
-				return nil
+				return retErr[ret]
 			}))
 		}, func(ret int) string {
-			if ret == 2 {
-				return "F(e2)"
+			if w := wantErr(ret); w != "" {
+				return w
 			}
 			return "S(())"
 		}},
@@ -475,18 +487,15 @@ func registerCapture(r *mc.Registry) {
 				*calls++
 				x.Tick()
 				body()
-				if ret == 2 {
-					return vals[ret], E[2]
-				}
-				return vals[ret], nil
+				return vals[ret], retErr[ret]
 			}, syncExec{})
 			if !f.IsCompleted() {
 				return "", nil, false
 			}
 			return strOf(f.Value())
 		}, func(ret int) string {
-			if ret == 2 {
-				return "F(e2)"
+			if w := wantErr(ret); w != "" {
+				return w
 			}
 			return "S(" + vals[ret] + ")"
 		}},
@@ -496,7 +505,7 @@ func registerCapture(r *mc.Registry) {
 		r.Seq("capture/"+cs.name, func(x *mc.X) {
 			drv.NewEnv(x, "C02", cs.name, true)
 			which := x.Choose(len(panicVals)+1, "panic") // 0 = no panic
-			ret := x.Choose(3, "return")
+			ret := x.Choose(5, "return")
 			calls := 0
 			body := func() {}
 			if which > 0 {
